@@ -125,3 +125,56 @@ NONJSON = [
     "{\"a\":1,}", "// c\n{}", "/* c */ {}", "{} {}", "[] []", "é", "€", "\U0001F600", "\"unterminated", "[" * 30, "{\"a\":" * 10,
     "{\"jsonrpc\":\"2.0\",\"method\":\"f\",\"id\":1}{", "\u2028", "\u00a0{}", "{}\u00a0", "\\", "\"", "'", "<xml/>", "id=1&method=f",
 ]
+
+
+# -- bodies beyond the small scope: one representative per size dimension -----------------------------------
+# A case names its body as ("GEN", kind, n); the text is built where it is evaluated (replay files stay small).
+
+SCALE_KINDS = ["batch-calls", "batch-notifs", "batch-mixed", "batch-errors", "deep-params", "deep-dict-params", "long-string", "wide-params",
+               "long-method", "long-id", "deep-id", "many-members"]
+
+
+def _nest(n, leaf, dicts=False):
+    v = leaf
+    for _ in range(n):
+        v = {"k": v} if dicts else [v]
+    return v
+
+
+def scale_body(kind, n):
+    if kind == "batch-calls":
+        return dumps([obj("2.0", i, "ret1") for i in range(n)])
+    if kind == "batch-notifs":
+        return dumps([obj("2.0", ABSENT, "f", [i]) for i in range(n)] + [obj("2.0", "last", "pair", [1, 2])])
+    if kind == "batch-mixed":
+        cyc = [lambda i: obj("2.0", i, "pair", [i, 2]), lambda i: obj(ABSENT, "s%d" % i, "ret0", []), lambda i: obj("2.0", ABSENT, "f", [i]),
+               lambda i: obj("2.0", i, "boom"), lambda i: i, lambda i: obj("2.0", i, "nosuch")]
+        return dumps([cyc[i % len(cyc)](i) for i in range(n)])
+    if kind == "batch-errors":
+        return dumps([obj("2.0", i, "boom") if i % 2 else {} for i in range(n)])
+    if kind == "deep-params":
+        return dumps(obj("2.0", 1, "echo", [_nest(n, 0)]))
+    if kind == "deep-dict-params":
+        return dumps(obj("2.0", 1, "echo", {"x": _nest(n, "é", dicts=True)}))
+    if kind == "long-string":
+        return dumps(obj("2.0", 1, "echo", ["a bé" * n]))
+    if kind == "wide-params":
+        return dumps(obj("2.0", 1, "echo", [list(range(n))]))
+    if kind == "long-method":
+        return dumps(obj("2.0", 1, "m" * n, []))
+    if kind == "long-id":
+        return dumps(obj("2.0", "i" * n, "pair", [1, 2]))
+    if kind == "deep-id":
+        return dumps(obj("2.0", _nest(n, 1), "ret1"))
+    if kind == "many-members":
+        o = obj("2.0", 1, "pair", [1, 2])
+        for i in range(n):
+            o["x%d" % i] = i
+        return dumps(o)
+    raise AssertionError(kind)
+
+
+def realise(body):
+    if isinstance(body, tuple) and body and body[0] == "GEN":
+        return scale_body(body[1], body[2])
+    return body
